@@ -65,6 +65,14 @@ static bool capped = false; static const char* cap_reason = "";
 struct InFlight { int32_t pre_idx; Op op; DevVec dv; int phase; };
 static InFlight* inflight = nullptr; static int my_worker = 0;
 
+static void path_string(Text& t, long pre_idx, const Op* op, const DevVec* dv);
+// the edge currently executing in this process (sanitizer death callback / crash attribution)
+static long cur_pre_idx = -1; static Op cur_op; static DevVec cur_dv; static bool cur_valid = false;
+#ifdef VX_SAN
+extern "C" void __sanitizer_set_death_callback(void (*cb)(void));
+static void on_sanitizer_death() { if (!cur_valid) return; Text t; path_string(t, cur_pre_idx, &cur_op, &cur_dv); fprintf(stderr, "\nVX-INFLIGHT replay=%s\n", t.c()); fflush(stderr); }
+#endif
+
 static void path_string(Text& t, long pre_idx, const Op* op, const DevVec* dv) {
 	// collect ancestors
 	Vec<int32_t> chain; long i = pre_idx;
@@ -230,6 +238,7 @@ static void run_edge(long pre_idx, const Abs* pre, const Op& op, const DevVec& d
 	E.pre_idx = pre_idx; E.op = op; E.ndev = dv.n; for (int i = 0; i < dv.n; ++i) { E.dev_pos[i] = dv.pos[i]; E.dev_alt[i] = dv.alt[i]; }
 	E.initial = op.k == OP_CONSTRUCT;
 	if (inflight) { InFlight& f = inflight[my_worker]; f.pre_idx = static_cast<int32_t>(pre_idx); f.op = op; f.dv = dv; f.phase = 1; }
+	cur_pre_idx = pre_idx; cur_op = op; cur_dv = dv; cur_valid = true;
 	G.mode = g_strategy_mode ? DM_STRATEGY : DM_DFS;
 	G.begin(dv.n, dv.pos, dv.alt);
 	if (E.initial) {
@@ -286,6 +295,28 @@ static uint64_t shape_hash(const Edge& e) {
 	return mix(h);
 }
 
+// feature-neutral view of an edge (C16, C19): what a program that uses neither plans, history, serialization nor logging can observe
+static Set64 neutral_set; static uint64_t neutral_sum = 0; static bool want_neutral = false;
+static void neutral_add(const Edge& e) {
+	uint64_t h = 1469598103934665603ull;
+	uint8_t hd[16]; int n = 0;
+	hd[n++] = e.initial ? 255 : e.pre.active; hd[n++] = e.initial ? 255 : e.pre.req.o; hd[n++] = e.initial ? 255 : e.pre.req.d; hd[n++] = e.initial ? 0 : e.pre.req.tag;
+	hd[n++] = e.op.k; hd[n++] = e.op.k == OP_CONSTRUCT ? 0 : e.op.a; hd[n++] = e.op.b; hd[n++] = e.op.c;
+	h = fnv(hd, n, h); h = fnv(e.dev_pos, sizeof(uint16_t) * e.ndev, h); h = fnv(e.dev_alt, sizeof(uint16_t) * e.ndev, h);
+	for (int i = 0; i < e.nev; ++i) {
+		const Ev& v = e.tr[i];
+		if (v.kind >= EV_LOG_METHOD && v.kind <= EV_LOG_PLAN) continue;
+		uint8_t b[32]; int k = 0;
+		b[k++] = v.kind; b[k++] = v.sid; b[k++] = v.meth; b[k++] = v.inj; b[k++] = v.a; b[k++] = v.b; b[k++] = v.c; b[k++] = v.r;
+		if (v.kind == EV_CB) { b[k++] = v.ctl_sid; b[k++] = v.ctl_mask; b[k++] = v.m_active; b[k++] = v.m_mask; b[k++] = v.flags & (OF_CTX | OF_EVENT | OF_THIS); b[k++] = v.ctl;
+			b[k++] = v.req.o; b[k++] = v.req.d; b[k++] = v.req.tag; b[k++] = v.pend.o; b[k++] = v.pend.d; b[k++] = v.pend.tag; b[k++] = v.cur.o; b[k++] = v.cur.d; b[k++] = v.cur.tag; }
+		h = fnv(b, k, h);
+	}
+	if (!e.terminal) { uint8_t t[4] = {e.post.active, e.post.req.o, e.post.req.d, e.post.req.tag}; h = fnv(t, 4, h); }
+	h = mix(h);
+	if (neutral_set.add(h)) neutral_sum += h;
+}
+
 // samples: a few complete edges written out for the evidence file
 static Vec<char*> sample_texts;
 static void maybe_sample(const Edge& e) {
@@ -305,7 +336,7 @@ static void explore_op(long pre_idx, const Abs* pre, const Op& op, int maxdev, b
 		run_edge(pre_idx, pre, op, dv);
 		++n_edges;
 		const int nch = G.nch; uint16_t menu[MAXCH]; memcpy(menu, G.menu, sizeof(uint16_t) * nch);
-		if (monitors) { run_monitors(E); g_digest += edge_hash(E); shapes.add(shape_hash(E)); maybe_sample(E); }
+		if (monitors) { run_monitors(E); g_digest += edge_hash(E); shapes.add(shape_hash(E)); maybe_sample(E); if (want_neutral && E.op.k != OP_ATTACH) neutral_add(E); }
 		if (E.overflow && !monitors && (opt.props & (1u << C04))) { /* reported in the monitored pass */ }
 		if (!E.terminal && !E.overflow) {
 			if (discover) {
@@ -437,20 +468,67 @@ static int explore_main() {
 	if (opt.strategies) { run_strategies(M, nstates, exhaustive); write_json(M, nstates, exhaustive, now() - t_start, nullptr); return M.count[0] ? 1 : 0; }
 
 	store.init(KEYLEN, INST_SIZE);
-	const bool single = opt.workers <= 1;
-	// pass 1: closure (single process). With one worker the monitors run in the same pass.
+	const int W = opt.workers < 1 ? 1 : opt.workers;
+	inflight = static_cast<InFlight*>(mmap(nullptr, sizeof(InFlight) * (W + 1), PROT_READ | PROT_WRITE, MAP_SHARED | MAP_ANONYMOUS, -1, 0));
+	// level-synchronous breadth-first search; large levels are expanded by W forked workers (each with the monitors on),
+	// the parent merges the states they discovered. Small levels are expanded in this process.
 	Vec<Op> init; initial_ops(init);
-	for (size_t k = 0; k < init.n; ++k) explore_op(-1, nullptr, init[k], opt.dev, single, true);
-	size_t done = 0;
-	while (done < store.count) {
-		if (now() - t_start > opt.deadline) { capped = true; cap_reason = "deadline reached during closure"; break; }
+	for (size_t k = 0; k < init.n; ++k) explore_op(-1, nullptr, init[k], opt.dev, true, true);
+	Vec<uint32_t> level; for (size_t i = 0; i < store.count; ++i) level.push(static_cast<uint32_t>(i));
+	const char* outbase = opt.out ? opt.out : "/tmp/fsmx_noout";
+	int nlevels = 0;
+	while (level.n && !capped) {
+		++nlevels;
+		if (now() - t_start > opt.deadline) { capped = true; cap_reason = "deadline reached during search"; break; }
 		if (store.count > opt.max_states) { capped = true; cap_reason = "state cap reached"; break; }
-		expand(static_cast<long>(done), opt.dev, single, true);
-		++done;
+		const size_t base = store.count;
+		if (W <= 1 || level.n < static_cast<size_t>(2 * W)) {
+			for (size_t k = 0; k < level.n; ++k) { if ((k & 63) == 0 && now() - t_start > opt.deadline) { capped = true; cap_reason = "deadline reached during search"; break; } expand(level[k], opt.dev, true, true); }
+		} else {
+			Vec<pid_t> pids; fflush(nullptr);
+			for (int w = 0; w < W; ++w) {
+				pid_t pid = fork();
+				if (pid < 0) die("fork failed");
+				if (pid == 0) {
+					my_worker = w; n_edges = 0; n_validated = 0; n_companion_runs = 0; g_digest = 0; shapes = Set64(); viols.clear(); npreds = 0; memset(viol_count, 0, sizeof viol_count); sample_texts.clear(); g_alloc.hits = 0;
+					bool wcap = false;
+					for (size_t k = w; k < level.n; k += W) { if ((k & 63) == static_cast<size_t>(w & 63) && now() - t_start > opt.deadline) { wcap = true; break; } expand(level[k], opt.dev, true, true); }
+					char path[700]; snprintf(path, sizeof path, "%s.s%d", outbase, w);
+					FILE* f = fopen(path, "wb"); if (!f) die("cannot write %s", path);
+					for (size_t i = base; i < store.count; ++i) { fwrite(store.key(i), 1, KEYLEN, f); fwrite(store.snap(i), 1, INST_SIZE, f); fwrite(&parents[i], sizeof(Parent), 1, f); }
+					fclose(f);
+					snprintf(path, sizeof path, "%s.w%d", outbase, w);
+					write_worker_results(path);
+					if (wcap) { FILE* g = fopen(path, "a"); fprintf(g, "capped 1\n"); fclose(g); }
+					fflush(nullptr); _exit(0);
+				}
+				pids.push(pid);
+			}
+			Vec<uint8_t> rec; rec.reserve(KEYLEN + INST_SIZE + sizeof(Parent));
+			for (int w = 0; w < W; ++w) {
+				int st = 0; waitpid(pids[w], &st, 0);
+				char path[700]; snprintf(path, sizeof path, "%s.w%d", outbase, w);
+				if (!WIFEXITED(st) || WEXITSTATUS(st) != 0) {
+					InFlight& f = inflight[w]; Text rp; path_string(rp, f.pre_idx, &f.op, &f.dv);
+					char line[4096]; snprintf(line, sizeof line, "%d crash\t%s\tworker %d terminated abnormally (status 0x%x) while executing this edge: undefined behaviour / sanitizer report, see stderr", C18, rp.c(), w, st);
+					M.viol_lines.push(strdup(line)); M.count[C18] += 1; M.pred_lines.push(strdup("18 crash 1"));
+					exhaustive = false; capped = true; cap_reason = "worker crashed";
+				} else {
+					merge_file(path, M);
+					FILE* f = fopen(path, "r"); if (f) { char* l = nullptr; size_t c = 0; while (getline(&l, &c, f) > 0) if (!strncmp(l, "capped", 6)) { capped = true; cap_reason = "deadline reached during search"; } free(l); fclose(f); }
+					snprintf(path, sizeof path, "%s.s%d", outbase, w);
+					f = fopen(path, "rb");
+					if (f) { const size_t rl = KEYLEN + INST_SIZE + sizeof(Parent); while (fread(rec.p, 1, rl, f) == rl) { bool isnew; store.intern(rec.p, rec.p + KEYLEN, &isnew); if (isnew) { Parent p; memcpy(&p, rec.p + KEYLEN + INST_SIZE, sizeof p); if (p.depth > max_depth_seen) max_depth_seen = p.depth; parents.push(p); } } fclose(f); }
+				}
+				snprintf(path, sizeof path, "%s.w%d", outbase, w); unlink(path);
+				snprintf(path, sizeof path, "%s.s%d", outbase, w); unlink(path);
+			}
+		}
+		level.clear(); for (size_t i = base; i < store.count; ++i) level.push(static_cast<uint32_t>(i));
 	}
 	nstates = store.count;
 	const double t_closure = now() - t_start;
-	if (opt.verbose) fprintf(stderr, "[%s] closure: states=%zu edges=%lu depth=%d %.1fs%s\n", opt.name, nstates, n_edges, max_depth_seen, t_closure, capped ? " (CAPPED)" : "");
+	if (opt.verbose) fprintf(stderr, "[%s] search: states=%zu levels=%d depth=%d %.1fs%s\n", opt.name, nstates, nlevels, max_depth_seen, t_closure, capped ? " (CAPPED)" : "");
 	// fresh-instance re-derivation of every state from its witness history, in differently pre-filled storage
 	unsigned long rederived = 0, rederive_bad = 0;
 	if (opt.verify_fresh && !capped) {
@@ -466,52 +544,12 @@ static int explore_main() {
 			}
 		}
 	}
-	if (single) {
-		if (capped) exhaustive = false;
-		char path[600]; snprintf(path, sizeof path, "%s.w0", opt.out ? opt.out : "/dev/null");
-		if (opt.out) { write_worker_results(path); merge_file(path, M); unlink(path); }
-		else { M.edges = n_edges; M.validated = n_validated; M.companion = n_companion_runs; M.digest = g_digest; for (int p = 1; p < PROP_MAX; ++p) M.count[p] = viol_count[p]; M.shapes = shapes; }
-	} else {
-		// pass 2: monitors, sharded over worker processes (each owns states idx % W == w)
-		const int W = opt.workers;
-		inflight = static_cast<InFlight*>(mmap(nullptr, sizeof(InFlight) * W, PROT_READ | PROT_WRITE, MAP_SHARED | MAP_ANONYMOUS, -1, 0));
-		Vec<pid_t> pids;
-		const unsigned long closure_edges = n_edges;
-		fflush(nullptr);
-		for (int w = 0; w < W; ++w) {
-			pid_t pid = fork();
-			if (pid == 0) {
-				my_worker = w; n_edges = 0; n_validated = 0; g_digest = 0; shapes = Set64(); viols.clear(); npreds = 0; memset(viol_count, 0, sizeof viol_count); sample_texts.clear();
-				if (w == 0) for (size_t k = 0; k < init.n; ++k) explore_op(-1, nullptr, init[k], opt.dev, true, false);
-				for (size_t i = w; i < done; i += W) {
-					if ((i & 255) == 0 && now() - t_start > opt.deadline) { FILE* f = fopen("/dev/null", "w"); if (f) fclose(f); capped = true; break; }
-					expand(static_cast<long>(i), opt.dev, true, false);
-				}
-				char path[600]; snprintf(path, sizeof path, "%s.w%d", opt.out ? opt.out : "/tmp/fsmx", w);
-				write_worker_results(path);
-				if (capped) { FILE* f = fopen(path, "a"); fprintf(f, "capped 1\n"); fclose(f); }
-				fflush(nullptr); _exit(0);
-			}
-			pids.push(pid);
-		}
-		for (int w = 0; w < W; ++w) {
-			int st = 0; waitpid(pids[w], &st, 0);
-			char path[600]; snprintf(path, sizeof path, "%s.w%d", opt.out ? opt.out : "/tmp/fsmx", w);
-			if (!WIFEXITED(st) || WEXITSTATUS(st) != 0) {
-				// crash (signal / sanitizer abort): attribute to the in-flight edge
-				InFlight& f = inflight[w]; Text rp; path_string(rp, f.pre_idx, &f.op, &f.dv);
-				char line[4096]; snprintf(line, sizeof line, "%d crash\t%s\tworker %d terminated abnormally (status 0x%x) while executing this edge: undefined behaviour / sanitizer report, see stderr", C18, rp.c(), w, st);
-				M.viol_lines.push(strdup(line)); M.count[C18] += 1; M.pred_lines.push(strdup("18 crash 1"));
-				exhaustive = false; cap_reason = "worker crashed";
-			} else { merge_file(path, M); FILE* f = fopen(path, "r"); if (f) { char* l = nullptr; size_t c = 0; while (getline(&l, &c, f) > 0) if (!strncmp(l, "capped", 6)) { exhaustive = false; cap_reason = "deadline reached during monitoring"; } free(l); fclose(f); } }
-			unlink(path);
-		}
-		if (capped) exhaustive = false;
-		(void)closure_edges;
+	if (capped) exhaustive = false;
+	{ // what this process itself executed
+		char path[700]; snprintf(path, sizeof path, "%s.w%d", outbase, W);
+		write_worker_results(path); merge_file(path, M); unlink(path);
 	}
-	char extra[256]; snprintf(extra, sizeof extra, ",\"closure_s\":%.2f,\"rederived\":%lu,\"rederive_mismatch\":%lu", t_closure, rederived, rederive_bad);
-	// the re-derivation flags were raised in this process
-	if (!single) { for (int p = 1; p < PROP_MAX; ++p) M.count[p] += viol_count[p]; for (size_t i = 0; i < viols.n; ++i) { Text l; l.add("%d %s\t%s\t%s", viols[i].prop, viols[i].pred, viols[i].replay, viols[i].text); M.viol_lines.push(l.p); } }
+	char extra[384]; snprintf(extra, sizeof extra, ",\"closure_s\":%.2f,\"rederived\":%lu,\"rederive_mismatch\":%lu,\"neutral_digest\":\"%016llx\",\"neutral_tuples\":%zu", t_closure, rederived, rederive_bad, static_cast<unsigned long long>(neutral_sum), neutral_set.count);
 	write_json(M, nstates, exhaustive, now() - t_start, extra);
 	unsigned long total = 0; for (int p = 1; p < PROP_MAX; ++p) total += M.count[p];
 	return total ? 1 : 0;
@@ -663,10 +701,14 @@ int main(int argc, char** argv) {
 		else if (!strcmp(a, "--copy")) opt.companions_copy = true;
 		else if (!strcmp(a, "--loadpairs")) opt.companions_load = true;
 		else if (!strcmp(a, "--no-fresh")) opt.verify_fresh = false;
+		else if (!strcmp(a, "--neutral")) want_neutral = true;
 		else if (!strcmp(a, "-v")) opt.verbose = true;
 		else if (!strcmp(a, "--info")) { printf("N=%d head=%d manual=%d payload=%d L=%d cap=%d plans=%d log=%d hist=%d ser=%d sizeof(Inst)=%zu\n", N, VX_HEAD, VX_MANUAL, VX_PAYLOAD, VX_L, TASK_CAP, VX_PLANS, VX_LOG, VX_HIST, VX_SER, INST_SIZE); return 0; }
 		else die("unknown argument %s", a);
 	}
+#ifdef VX_SAN
+	__sanitizer_set_death_callback(on_sanitizer_death);
+#endif
 	if (opt.replay) return replay_main();
 	return explore_main();
 }
